@@ -90,6 +90,13 @@ def run_shard(desc):
             for ii, ids in enumerate(idl):
                 d = dyn.build(topo, kt, orient, ids, (orient + ii) % n)
                 judge_circuit(d, cm_, tier, res)
+                if orient == orients[0]:
+                    # a voltage source whose nominal value is 0 V is a model source like any other: its waveform comes from `input`
+                    d0 = zero_nominal(d)
+                    if d0 is not None:
+                        res["evals"] += 1
+                        bump(res["hits"], "zero_nominal_voltage_source")
+                        judge_circuit(d0, cm_, tier, res)
     return res
 
 
@@ -99,6 +106,31 @@ def replay(case):
     # settling run or under another combination mode reproduces
     judge_circuit(case["circuit"], "all", "quick", res, ladder=len(case["circuit"]["components"]) > 6)
     return res["violations"]
+
+
+def with_nominal(d, amps):
+    """the same description with each source's nominal value set to the constant it is driven with"""
+    out = []
+    for c in d["components"]:
+        v = dict(c[3])
+        if c[0] == "dc_voltage_source":
+            v["V"] = amps[c[1]]
+        if c[0] == "dc_current_source":
+            v["I"] = amps[c[1]]
+        out.append([c[0], c[1], list(c[2]), v])
+    return {"components": out}
+
+
+def zero_nominal(d):
+    """the same description with the nominal value of the first voltage source set to zero (its waveform is given anyway), or None"""
+    out, done = [], False
+    for c in d["components"]:
+        v = dict(c[3])
+        if c[0] == "dc_voltage_source" and not done:
+            v["V"] = 0
+            done = True
+        out.append([c[0], c[1], list(c[2]), v])
+    return {"components": out} if done else None
 
 
 def time_scaled(d, k):
@@ -196,7 +228,8 @@ def judge_circuit(d, combos_mode, tier, res, only=None, only_div=None, ladder=Fa
         rows_d[("v", i)] = np.asarray(ssm.d_row_voltage(i), float).reshape(-1)
         rows_c[("i", i)] = np.asarray(ssm.c_row_current(i), float).reshape(-1)
         rows_d[("i", i)] = np.asarray(ssm.d_row_current(i), float).reshape(-1)
-    amps = {s[1]: rc.fl(s[3]["V"] if s[0] == "dc_voltage_source" else s[3]["I"]) for s in srcs}
+    # the waveform amplitude is the nominal value; a source whose nominal (DC) value is zero is driven with 3/2
+    amps = {s[1]: (rc.fl(s[3]["V"] if s[0] == "dc_voltage_source" else s[3]["I"]) or 1.5) for s in srcs}
     src_ids = [s[1] for s in srcs]
     if len(srcs) == 1:
         combos = [(s,) for s in SHAPES[1:]]
@@ -387,7 +420,7 @@ def judge_circuit(d, combos_mode, tier, res, only=None, only_div=None, ladder=Fa
                 fns = {sid: shape_fn("constant", 1.0, amps[sid]) for sid in src_ids}
                 try:
                     sol = TransientSolution(circuit=circ, tin=ts, input=fns)
-                    dc = DCSolution(circuit=circ)
+                    dc = DCSolution(circuit=adapt.circuit(with_nominal(d, amps)))
                     res["transitions"] += 1
                     bump(res["hits"], "settles_to_dc")
                     sv = max([1e-300] + [abs(dc.get_potential(nd)) for nd in nodes] + [abs(a) for a in amps.values()])
